@@ -13,7 +13,7 @@ theorem inPre_empty (wnd : BitVec 16) (una : U32) (k : Kcp) (h : k.snd_buf = [])
     inPre true wnd una k = { k with rmt_wnd := wnd.setWidth 32, snd_buf := [], snd_una := k.snd_nxt } ∧
     inCnt true wnd una k = 0 := by
   constructor
-  · rw [inPre_true, h]; rfl
+  · rw [inPre_true _ _ _ (by rw [h]; intro x hx; simp at hx), h]; rfl
   · unfold inCnt parseUna
     simp only [↓reduceIte]
     rw [h]; rfl
